@@ -311,3 +311,26 @@ def ast_contains(root: ast.AST, pattern_src: str) -> bool:
         if ast_match(pat, n, {}):
             return True
     return False
+
+
+def resolve_alias(fn: ast.AST, e: ast.AST, depth: int = 0) -> ast.AST:
+    """Follow a local name to the expression it is bound to, when the function binds it exactly once by a plain
+    assignment (x = <expr>); other names (parameters, loop variables, re-bound names) are returned unchanged."""
+    if depth > 3 or not isinstance(e, ast.Name):
+        return e
+    binds = []
+    use_line = getattr(e, "lineno", 10**9)
+    for n in ast.walk(fn):
+        if getattr(n, "lineno", 0) > use_line and isinstance(n, (ast.For, ast.Assign, ast.AnnAssign, ast.AugAssign)) and not any(x is e for x in ast.walk(n)):
+            continue  # bindings after the use do not reach it (straight-line reading; loops that contain the use are kept)
+        if isinstance(n, ast.Assign) and len(n.targets) == 1 and isinstance(n.targets[0], ast.Name) and n.targets[0].id == e.id:
+            binds.append(n.value)
+        elif isinstance(n, ast.AnnAssign) and isinstance(n.target, ast.Name) and n.target.id == e.id and n.value is not None:
+            binds.append(n.value)
+        elif isinstance(n, (ast.For, ast.comprehension)) and any(isinstance(t, ast.Name) and t.id == e.id for t in ast.walk(n.target)):
+            return e
+        elif isinstance(n, (ast.AugAssign,)) and isinstance(n.target, ast.Name) and n.target.id == e.id:
+            return e
+    if len(binds) != 1:
+        return e
+    return resolve_alias(fn, binds[0], depth + 1)
